@@ -196,6 +196,7 @@ type LState struct {
 	mainLoop     func(*LState, *callFrame)
 	ctx          context.Context
 	ctxCancelFn  context.CancelFunc
+	ctxBase      context.Context
 }
 
 func (ls *LState) String() string   { return fmt.Sprintf("thread: %p", ls) }
